@@ -98,6 +98,13 @@ pub enum React {
     /// from inside this handler, make upstream puppet (k mod #puppets) push its next item now (a
     /// subject-like source that emits re-entrantly, nested in another delivery)
     Poke(u8),
+    /// share profiles: from inside this handler the NEXT probe leaves (sends Terminate on its own talkback)
+    DisposeOther,
+    /// share profiles: the next probe leaves and a free probe subscribes, inside this handler
+    Switch,
+    /// share profiles: this probe subscribes again from inside the handler in which its subscription
+    /// ended (a repeat-style consumer such as concat!(s.clone(), s))
+    Reattach,
 }
 
 #[derive(Clone, Debug, Serialize, Deserialize, PartialEq, Eq, Hash)]
@@ -201,6 +208,10 @@ pub enum Profile {
     Share,
     /// share over one puppet, 1..=3 probes, synchronous Pull replies allowed (nested fan-out)
     ShareNested,
+    /// Share plus cross-sink actions from inside handlers (another probe leaves / a free probe joins)
+    ShareCross,
+    /// ShareCross plus probes that subscribe again from inside their own end handler
+    ShareReattach,
     /// for_each (crate sink) over a single operator or a bare puppet
     ForEach,
     /// two subscriptions to one output (any operator but share)
@@ -475,7 +486,7 @@ pub fn decode(profile: Profile, bytes: &[u8], max_steps: usize) -> Scenario {
         n_pup: 0,
         n_leaf: 0,
         late_ok: vec![],
-        puppets_only: matches!(profile, Profile::Single(_) | Profile::Dual(_) | Profile::Share | Profile::ShareNested | Profile::LateShare | Profile::LateAny | Profile::ForEachDual),
+        puppets_only: matches!(profile, Profile::Single(_) | Profile::Dual(_) | Profile::Share | Profile::ShareNested | Profile::ShareCross | Profile::ShareReattach | Profile::LateShare | Profile::LateAny | Profile::ForEachDual),
         take_zero: matches!(profile, Profile::AnySingle | Profile::Composed),
         late_everywhere: false,
         stateful: profile == Profile::Indep,
@@ -531,10 +542,10 @@ pub fn decode(profile: Profile, bytes: &[u8], max_steps: usize) -> Scenario {
                 }
             }
         }
-        Profile::Share | Profile::ShareNested | Profile::LateShare => {
-            n_sinks = 1 + g.d.below(3);
+        Profile::Share | Profile::ShareNested | Profile::LateShare | Profile::ShareCross | Profile::ShareReattach => {
+            n_sinks = if matches!(profile, Profile::ShareCross | Profile::ShareReattach) { 2 + g.d.below(2) } else { 1 + g.d.below(3) };
             attach_first = false;
-            no_sync = n_sinks >= 2 && profile == Profile::Share;
+            no_sync = n_sinks >= 2 && profile != Profile::ShareNested && profile != Profile::LateShare;
             Topo::Share(Box::new(g.puppet(profile == Profile::LateShare)))
         }
         Profile::ForEach => {
@@ -634,6 +645,25 @@ pub fn decode(profile: Profile, bytes: &[u8], max_steps: usize) -> Scenario {
     if profile == Profile::FromIterDirect {
         sinks[0].pull_after_end = g.d.below(3) == 2;
     }
+    if matches!(profile, Profile::ShareCross | Profile::ShareReattach) {
+        for sp in sinks.iter_mut() {
+            // make the tables long enough to hold a few cross actions
+            while sp.react.len() < 4 {
+                sp.react.push(sp.react_default);
+            }
+            for r in sp.react.iter_mut() {
+                match g.d.below(12) {
+                    0 | 1 => *r = React::DisposeOther,
+                    2 => *r = React::Switch,
+                    3 | 4 if profile == Profile::ShareReattach => *r = React::Reattach,
+                    _ => {}
+                }
+            }
+            if profile == Profile::ShareReattach && g.d.below(2) == 1 {
+                sp.react_default = React::Reattach;
+            }
+        }
+    }
     let mut puppets = puppets;
     if profile == Profile::Rogue {
         for p in puppets.iter_mut() {
@@ -683,7 +713,7 @@ pub fn decode(profile: Profile, bytes: &[u8], max_steps: usize) -> Scenario {
             schedule.push(Step::Pup { p: who as u8, owner, act });
         } else {
             let s = (who - n_pup) as u8;
-            let act = if matches!(profile, Profile::Share | Profile::ShareNested | Profile::LateShare | Profile::Indep | Profile::Dual(_)) {
+            let act = if matches!(profile, Profile::Share | Profile::ShareNested | Profile::LateShare | Profile::ShareCross | Profile::ShareReattach | Profile::Indep | Profile::Dual(_)) {
                 d.pick(&[
                     StepSAct::Attach,
                     StepSAct::Pull,
